@@ -179,7 +179,10 @@ def r3(ctx):
         for s in b.stores():
             if lp not in s.loops:
                 continue
-            if s.idx is not None:
+            if s.idx is not None and s.base_name and _iteration_private(ana, fi, cfg, rd, lp, s):
+                ctx.ok(fi, f"store `{unparse(s.target)}` writes an array allocated inside the same iteration (iteration-private)",
+                       line=s.stmt.lineno, role=f"prange:store:private")
+            elif s.idx is not None:
                 ctx.check(bool(s.idx) and s.idx[0] == v and s.aug is None, fi,
                           f"store `{unparse(s.target)}` in the prange body is indexed by the induction variable (iterations write disjoint cells)",
                           line=s.stmt.lineno, role=f"prange:store:{s.base_name}", expected=f"{s.base_name}[{v}, ...] = ...",
@@ -199,6 +202,28 @@ def r3(ctx):
         par = None
         dec = [d for f, d in njit_kernels(ana) if f is fi]
         ctx.check(bool(dec), fi, "prange is used inside an njit kernel", role="prange:in-kernel", found="not decorated")
+
+
+FRESH_ALLOC = {"numpy.zeros", "numpy.empty", "numpy.ones", "numpy.full", "numpy.zeros_like", "numpy.empty_like", "numpy.ones_like",
+               "numpy.full_like", "numpy.copy", "numpy.array"}
+
+
+def _iteration_private(ana, fi, cfg, rd, lp, s) -> bool:
+    """The stored-into name is bound, on every path to the store, by a fresh allocation executed in the same iteration."""
+    defs = rd.reaching(s.node, s.base_name)
+    if not defs:
+        return False
+    for d in defs:
+        if d.kind != "stmt" or lp not in cfg.enclosing_loops(d):
+            return False
+        from .common import def_value
+        v = def_value(d)
+        if not isinstance(v, ast.Call):
+            return False
+        r = ana.res.fq_of_expr(fi, v.func)
+        if not (r and r[1] in FRESH_ALLOC):
+            return False
+    return True
 
 
 def _affine_bounds(t, ranges: Dict[str, Range]) -> Optional[Tuple[tm.T, tm.T]]:
